@@ -205,7 +205,7 @@ def import_all(api, retained_types, retained_routes, tag):
     """python_types of the api into a package; every namespace module imported first once.  Returns a list of failure strings."""
     pkg, b = impl.build_python_package(api)
     if pkg is None:
-        return ['python_types fails: %s' % (b.crash,)], 'backend:%s' % b.crash
+        return ['python_types fails: %s' % (b.identity,)], 'backend:%s' % b.identity
     fails, ident = [], None
     try:
         names = [n for n in api.namespaces]
